@@ -216,7 +216,9 @@ int KSI_TlvElement_serialize(const KSI_TlvElement *element, unsigned char *buf, 
 		goto cleanup;
 	}
 
-	if (element->subList == NULL || KSI_TlvElementList_length(element->subList) == 0) {
+	if (element->subList == NULL) {
+		/* Not expanded: the payload is the raw data. An expanded element is made up of
+		 * its children only, even when none are left. */
 		dat_len = element->ftlv.dat_len;
 
 		if (buf != NULL) {
